@@ -15,7 +15,8 @@ EXPLANATION = (
     "refused transition falls through to failure, and the join restores the fan-out state's raw input before handling its error; (R4) retry "
     "counters cannot leak: change_state deletes both before it publishes, the fan-out delegates move both out of the context before "
     "publishing to the branches; (R5) States.Runtime / States.ExecutionTimeout / Task.Terminated bypass both scans. Not decided: sequences "
-    "of task outcomes.")
+    "of task outcomes."
+    " (R8) in the join a removal of RetryCount and RetryTimeout from the context dominates every handle_error/change_state call, and what is restored is the fan-out state's own pair from the Branch record; (R9) nothing that can raise a catchable error is reachable from the push of the placeholder Branch record in a fan-out delegate unless the handlers pop it.")
 RULE_TEXT = "obligation = one structural fact of the retry/catch algorithm at a named site; non-trivial = distinct (rule, site)"
 
 UNRECOVERABLE = {"States.Runtime", "States.ExecutionTimeout", "Task.Terminated"}
